@@ -299,6 +299,21 @@ def _builds_diagnostic(g):
     return False
 
 
+_DIAGB = {}
+
+
+def _diag_builders(F):
+    """plain functions of the analyzer that (directly or through one more helper) build an analyzing::Error"""
+    if id(F) not in _DIAGB:
+        cand = {p: g for p, g in F.fns.items() if g["crate"] == "tx3_lang" and not g.get("impl_trait") and not g.get("derived") and "analyzing" in g["file"]}
+        out = {p for p, g in cand.items() if _builds_diagnostic(g)}
+        for p, g in cand.items():
+            if p not in out and any((t.get("resolved") or t.get("callee") or "") in out for _, t in mir.calls(g)) and g["locals"][0].endswith("AnalyzeReport"):
+                out.add(p)
+        _DIAGB[id(F)] = out
+    return _DIAGB[id(F)]
+
+
 def _reporting_blocks(fn, F=None):
     """blocks of an analyze() body after which the returned report is not silent about the node: a diagnostic is constructed,
     or a child's analyze() is called on this very path (its report is what gets returned).  A path that skips a field is
@@ -317,6 +332,9 @@ def _reporting_blocks(fn, F=None):
                 out.add(bi)
             # `opt.ok_or_else(|| Error::..)` / `res.map_err(|e| Error::..)`: the diagnostic is built by the closure handed over
             elif F is not None and any(fr in F.fns and _builds_diagnostic(F.fns[fr]) for fr in t.get("fnrefs") or ()):
+                out.add(bi)
+            # a helper of the analyzer that builds the diagnostic (`AnalyzeReport::unresolved(name, node)`)
+            elif F is not None and (t.get("resolved") or c) in _diag_builders(F):
                 out.add(bi)
     return out
 
@@ -389,7 +407,7 @@ def identifier_invariant(F, res):
     """What `_child_reported_blocks` relies on: every return of Identifier::analyze has either built a diagnostic or assigned
     `self.symbol`."""
     f = F.fn("<%s as %s>::analyze" % (IDENT, ANALYZABLE))
-    stop = set(_reporting_blocks(f))
+    stop = set(_reporting_blocks(f, F))
     for bi, si, s in mir.stmts(f):
         if [q for q in s["lhs"]["p"] if q[0] == "f" and q[1] == "symbol" and q[2] == IDENT]:
             stop.add(bi)
